@@ -217,7 +217,7 @@ func checkC10(e *Env) {
 	})
 
 	// the concurrent flavour of this monitor (C12 is the full treatment)
-	concCalls := e.concurrentSmoke(drv, "C10", e.smokePool("C10", "chk"), e.pick(2, 12), e.pick(300, 1500))
+	concCalls := e.concurrentSmoke(drv, "C10", e.smokePool("C10", "chk"), e.pick(2, 12), e.pick(300, 1500), e.smokeAgree("chk"))
 
 	// coverage of (language, word, form) triples whose spelling is non-trivial
 	covCount := map[string]string{}
